@@ -199,6 +199,11 @@ def py_values(a, kind, mult, x, s, arm):
         return ([pool[0]], [pool[0]])
     if mult == 2:
         return ([pool[0], pool[1]], [pool[0], pool[1]])
+    if mult == 4:
+        if not a.multidimensional:
+            return None
+        # three levels of nesting (one zone whose value is a 2 x 2 matrix)
+        return ([[[pool[0], pool[1]], [pool[2], pool[0]]]], [pool[0], pool[1], pool[2], pool[0]])
     if a.multidimensional:
         return ([[pool[0], pool[1]], [pool[2], pool[0]]], [pool[0], pool[1], pool[2], pool[0]])
     return ([pool[0], pool[1], pool[2]], [pool[0], pool[1], pool[2]])
